@@ -199,6 +199,15 @@ def has(body, kinds):
 # programs with a hand-derived trace: defers of a function called FROM a deferred expression, defers in a method, and defers in an
 # iterator body (run after every step, also the step that ends with StopIterErr)
 EXPECT = [
+    # a deferred expression is evaluated at exit and its VALUE is dropped (a function value is not called)
+    ("deferred_value_is_not_called", 'undo := {|x| "undo #{x}".p; {"redo #{x}".p}}\nf := {|x|\n  defer undo(1)\n  defer "d2".p\n  return x * 2 if x > 0\n  defer undo(3)\n  \'neg\n}\nf(5).p\nf(-1).p\n'
+     'divider := {|n| "divider #{n}".p; {|m| raise ValueErr.new("nothing to divide") if m.nil?; m / n}}\ng := {defer divider(1); defer "last".p; \'ok}\ng().p\n',
+     "undo 1\nd2\n10\nundo 1\nd2\nundo 3\nneg\ndivider 1\nlast\nok\n"),
+    # the guard of a defer uses the one truthiness rule: an object literal whose own B answers false is false
+    ("guard_object_with_own_B", 'off := {name: "verbose", B: m{false}}\non := {name: "verbose", B: m{true}}\nh := {|flag|\n  defer "d1".p\n  defer "d2 (guarded)".p if flag\n  defer "d3".p\n  "body".p\n  \'done\n}\n'
+     "[h(off), h(on), h(false), h({}), h({a: 1})].p\n",
+     "body\nd1\nd3\nbody\nd1\nd2 (guarded)\nd3\nbody\nd1\nd3\nbody\nd1\nd3\nbody\nd1\nd2 (guarded)\nd3\n"
+     '["done", "done", "done", "done", "done"]\n'),
     # the guard of `defer e if c` is evaluated when the statement is reached (it sees the state of that moment, its effects are
     # in statement order, a raise aborts the body there); only e waits for the exit
     ("guard_of_defer_is_evaluated_when_reached",
